@@ -61,9 +61,11 @@ def flex_reference(case):
             return None                  # known finding flex-column-clamps-by-width
         if not row and (it['mt'] is None or it['mb'] is None):
             return None                  # known finding flex-vertical-auto-margins-zeroed
-        if it['basis'] == 'content':
+        if it['basis'] == 'content' or (it['basis'] == 'auto' and it[size_k] is None):
             if it[size_k] is not None:
                 return None
+            if it[min_k] is not None or it[max_k] is not None:
+                return None              # known finding flex-content-base-clamped
             base = F(0)
         elif it['basis'] == 'auto':
             base = _v(it[size_k])
@@ -531,4 +533,104 @@ def grid_geometry_violation(doc, out):
                 return (f'item {ident} in area {positions[ident]}: {axis}-axis position/size {float(pos)}/{float(size)} '
                         f'(align {align}), its area is at {float(area_start)} with size {float(area_size)}: '
                         f'expected {float(want_pos)}/{float(want_size)}')
+    return None
+
+
+def _template_track_count(template):
+    if template is None:
+        return 0
+    n = 0
+    for e in template:
+        if e[0] == 'size':
+            n += 1
+        elif e[0] == 'repeat':
+            n += e[1] * sum(1 for x in e[2] if x[0] == 'size')
+    return n
+
+
+def dense_violation(doc, out):
+    """css-grid 8.5 with `dense` packing: every item that is auto-placed in step 4 (automatic position on the
+    auto-flow axis) takes the first position, searching from the start of the grid in auto-flow order, where it
+    overlaps nothing placed before it.  Judged on grids whose items use positive unnamed lines, numeric spans or
+    auto, with no track before the explicit grid."""
+    from vlib import sx
+    if not doc['dense'] or not out.startswith('ok ') or doc['areas'] is not None:
+        return None
+    toks = sx.loads_line(out)
+    pos = None
+    for k, t in enumerate(toks):
+        if t == 'pos=':
+            pos = toks[k + 1]
+    if pos is None:
+        return None
+    order = [int(p[0]) for p in pos]
+    positions = {int(p[0]): tuple(int(v) for v in p[1:]) for p in pos}
+    if any(a[0] < 0 or a[1] < 0 for a in positions.values()):
+        return None
+    column_flow = doc['flow'] == 'column'
+    items = {it['id']: it for it in doc['items']}
+
+    def axes(it):
+        rows, cols = (it['rs'], it['re']), (it['cs'], it['ce'])
+        return (cols, rows) if column_flow else (rows, cols)     # (auto-flow "first" axis, second axis)
+
+    def split(area):
+        x, y, w, h = area
+        return (x, w, y, h) if column_flow else (y, h, x, w)      # first coord, first size, second coord, size
+
+    first_ref, second_ref = {}, {}
+    for ident, it in items.items():
+        f, s = axes(it)
+        first_ref[ident], second_ref[ident] = placement_reference(*f, None), placement_reference(*s, None)
+        if first_ref[ident] is None or second_ref[ident] is None:
+            return None
+    # start of the implicit grid on both axes, as known when step 4 starts
+    placed_before = [i for i in order if first_ref[i] != 'auto']
+    first_start = min([0] + [split(positions[i])[0] for i in placed_before])
+    explicit_second = max(1, _template_track_count(doc['rows'] if column_flow else doc['cols']))
+    lo, hi = 0, explicit_second
+    for ident in items:
+        if ident in placed_before:
+            _, _, c, n = split(positions[ident])
+        elif second_ref[ident] != 'auto':
+            c, n = second_ref[ident]
+        else:
+            continue
+        lo, hi = min(lo, c), max(hi, c + n)
+    for ident, it in items.items():
+        if ident in placed_before:
+            continue
+        span = 1
+        for p in axes(it)[1]:
+            if p != 'auto' and p[0] == 'span':
+                span = p[1] or 1
+                break
+        hi = max(hi, lo + span)
+    for k, ident in enumerate(order):
+        if first_ref[ident] != 'auto':
+            continue
+        earlier = [positions[o] for o in order[:k]]
+        f, fsize, s, ssize = split(positions[ident])
+
+        def free(fc, sc):
+            area = (fc, sc, fsize, ssize) if column_flow else (sc, fc, ssize, fsize)
+            return not any(areas_overlap(area, other) for other in earlier)
+        want = None
+        if second_ref[ident] != 'auto':
+            for fc in range(first_start, first_start + 200):
+                if free(fc, s):
+                    want = (fc, s)
+                    break
+        else:
+            for fc in range(first_start, first_start + 200):
+                for sc in range(lo, hi):
+                    if sc + ssize <= hi and free(fc, sc):
+                        want = (fc, sc)
+                        break
+                if want:
+                    break
+        if want is not None and want != (f, s):
+            axis = 'column, row' if column_flow else 'row, column'
+            return (f'dense packing: item {ident} is placed at ({axis}) = ({f}, {s}) although ({want[0]}, {want[1]}) '
+                    f'comes first from the start of the grid and is free (areas placed before: {earlier})')
     return None
